@@ -272,6 +272,25 @@ class Rewrites:
                     def mut(m, on=o.name, nm=nm):
                         m.types[on].interfaces.append(nm)
                     add("implements-non-interface", "%s implements %s %s" % (o.name, what, nm), mut)
+        # ... a non-interface whose every field the implementer honours (a duck-typed "is it an interface" test passes):
+        # the object itself, and a twin object type declaring a subset of the same fields, directly and through an extension
+        for o in self.pick(objs(s)):
+            def mut(m, on=o.name):
+                m.types[on].interfaces.append(on)
+            add("implements-non-interface", "%s implements itself" % o.name, mut)
+
+            def mut(m, on=o.name, via_ext=False, keep=rng.choice([1, 2, 99])):
+                twin = copy.deepcopy(m.types[on])
+                twin.name = "Twin_"
+                twin.interfaces, twin.directives = [], []
+                for fn in list(twin.fields)[keep:]:
+                    del twin.fields[fn]
+                m.add(twin)
+                if not via_ext:
+                    m.types[on].interfaces.append("Twin_")
+            add("implements-non-interface", "%s implements object Twin_ declaring the same fields" % o.name, mut)
+            add("implements-non-interface", "interface-only `extend type %s implements` object Twin_ declaring the same fields" % o.name,
+                lambda m, f=mut: f(m, via_ext=True), extra=["extend type %s implements Twin_" % o.name])
         ifaces = of_kind(s, "INTERFACE")
         for o in self.pick(objs(s)):
             free = [i for i in ifaces if i.name not in o.interfaces and not any(fn in o.fields for fn in i.fields)]
@@ -416,12 +435,18 @@ class Rewrites:
                      "on_introspection", "on_post_bake", "on_schema_execution", "on_field_collection",
                      "on_fragment_spread_collection", "on_inline_fragment_collection"):
             add("directive-hook-not-awaitable", hook, extra=["directive @badHook_ on FIELD_DEFINITION | FIELD"], tweak="badhook:" + hook)
+        for hook in self.pick(["on_field_execution", "on_argument_execution", "on_post_input_coercion", "on_pre_output_coercion",
+                               "on_introspection", "on_post_bake", "on_schema_execution"]):
+            add("directive-hook-not-awaitable", hook + " is an async generator function, not a coroutine function",
+                extra=["directive @badHook_ on FIELD_DEFINITION | FIELD"], tweak="badagen:" + hook)
         add("directive-hook-not-awaitable", "on_schema_subscription is a coroutine, not an async generator",
             extra=["directive @badHook_ on FIELD_DEFINITION | FIELD"], tweak="badgen:on_schema_subscription")
 
         # ---- syntax
         for _ in range(self.max_sites):
             add("syntax", "damage#%d" % _, tweak="syntax")
+        for _ in range(self.max_sites + 1):
+            add("syntax-lexical", "character#%d" % _, tweak="lexical")
         return out
 
     @staticmethod
@@ -477,6 +502,50 @@ def damage(rng, text):
     return rng.choice(["", "   ", "type", "{", text[: max(1, len(text) // 3)].rsplit("{", 1)[0] + "{"])
 
 
+# characters that no GraphQL token may contain outside strings and comments, judged by an INDEPENDENT lexer (vt.pyparser.lex, the
+# one the parser drop-in was validated against) - never by the engine's own SDL parser, whose grammar is part of what is checked
+LEX_LETTERS = ["\u00e9", "\u00df", "\u044f", "\u0663", "\uff41", "\u00b2", "\u4e2d", "\u0301", "\u200d"]   # letters, digits, marks, joiner
+LEX_ASCII = ["?", ";", "%", "^", "~", "`", "\\", "<", ">", "*", "/", "'", "+", "-"]
+# blanks other than space / tab / LF / CR / BOM: not ignored tokens either; the engine's grammar deliberately ignores them
+# (`WHITE_SPACE: /[\\s\\t]/+`, `LINE_TERMINATOR: /[\\f\\r\\n]/+`) - known finding `unicode-blank-outside-strings-ignored`
+LEX_BLANKS = ["\u00a0", "\u2028", "\u000b", "\u000c", "\u3000", "\u0085", "\u2003"]
+
+
+def lexical_damage(rng, text):
+    """(damaged text, class) with ONE character inserted at a name token, or None.  class: 'letter' | 'ascii' | 'blank'."""
+    from vt import pyparser
+    raw = text.encode("utf-8")
+    try:
+        toks = [tk for tk in pyparser.lex(raw) if tk.kind == "NAME"]
+    except Exception:  # noqa
+        return None
+    if not toks:
+        return None
+    starts = [0]
+    for ln in raw.split(b"\n"):
+        starts.append(starts[-1] + len(ln) + 1)
+    tk = rng.choice(toks)
+    off = starts[tk.sl - 1] + tk.sc - 1
+    n = len(tk.value.encode("utf-8")) if isinstance(tk.value, str) else len(tk.value)
+    if raw[off:off + n] != (tk.value.encode("utf-8") if isinstance(tk.value, str) else tk.value):
+        return None          # CR line endings or the like: offsets unknown, skip
+    r = rng.random()
+    if r < 0.5:
+        cls, ch, at = "letter", rng.choice(LEX_LETTERS), off + rng.choice([0, 1, n, rng.randrange(n + 1)])
+    elif r < 0.8:
+        cls, ch, at = "ascii", rng.choice(LEX_ASCII), off + rng.choice([0, n])
+    else:
+        cls, ch, at = "blank", rng.choice(LEX_BLANKS), off + rng.choice([0, n])
+    out = raw[:at] + ch.encode("utf-8") + raw[at:]
+    try:
+        pyparser.lex(out)
+    except pyparser.GQLSyntaxError:
+        return out.decode("utf-8"), cls
+    except Exception:  # noqa
+        return None
+    return None             # still a token sequence (e.g. `-` before a number): not lexically invalid
+
+
 def make_bad_directive(tweak):
     kind, hook = tweak.split(":")
 
@@ -486,6 +555,10 @@ def make_bad_directive(tweak):
         def plain(self, *a, **k):
             return None
         setattr(Bad, hook, plain)
+    elif kind == "badagen":
+        async def agen(self, *a, **k):
+            yield None
+        setattr(Bad, hook, agen)
     else:
         async def coro(self, *a, **k):
             return None
@@ -526,11 +599,20 @@ async def run_case(ctx, rng, index):
                 except Exception:  # noqa
                     pass
                 parts = [text2]
-            mode = rng.choice(c11.MODES) if r["tweak"] != "syntax" else rng.choice(["string", "file"])
+            lex_cls = None
+            if r["tweak"] == "lexical":
+                dmg = lexical_damage(rng, text)
+                if dmg is None:
+                    st.inc("lexical-damage-not-applicable")
+                    continue
+                parts, lex_cls = [dmg[0]], dmg[1]
+                r = dict(r, site="%s: one %s character inserted at a name" % (r["site"], lex_cls))
+                st.inc("lexical-damage:" + lex_cls)
+            mode = rng.choice(c11.MODES) if r["tweak"] not in ("syntax", "lexical") else rng.choice(["string", "file"])
             case = {"rule": r["rule"], "site": r["site"], "sdl": "\n\n".join(parts), "mode": mode}
             sdl = sdlgen.supply(rng, parts, mode, os.path.join(workroot, str(k)))
             b = harness.Bundle(m, sdl=sdl)
-            if r["tweak"] and r["tweak"].startswith(("badhook", "badgen")):
+            if r["tweak"] and r["tweak"].startswith(("badhook", "badgen", "badagen")):
                 m.directives["badHook_"] = DirectiveDef("badHook_", ["FIELD_DEFINITION", "FIELD"])
                 m.directives["badHook_"].impl = "custom"
                 from tartiflette import Directive
@@ -560,6 +642,8 @@ async def run_case(ctx, rng, index):
             finally:
                 b.dispose()
             mech = "duplicate-member-across-two-extensions" if r["rule"] == "extend-duplicate-across-extensions" else None
+            if lex_cls == "blank":
+                mech = "unicode-blank-outside-strings-ignored"
             ctx.violation("engine-built-from-invalid-sdl", "%s @ %s (mode=%s)" % (r["rule"], r["site"], mode), case, mech)
     finally:
         shutil.rmtree(workroot, ignore_errors=True)
